@@ -917,7 +917,10 @@ def rt_cases(prop):
                 # the previous run until the nested run begins: what the API says then is about that earlier run)
                 sp['rerun'] = True
                 n_ = len(sp['members'])
-                free = [(a, b_) for a in range(n_) for b_ in range(a) if (a, b_) not in [tuple(e) for e in sp['edges']]]
+                # (the added requirement must keep the tree admissible: not on a forever or never-ending job)
+                plain = lambda m_: m_['type'] == 'job' and not m_.get('forever') and m_.get('duration') is not None
+                free = [(a, b_) for a in range(n_) for b_ in range(a) if (a, b_) not in [tuple(e) for e in sp['edges']]
+                        and plain(sp['members'][a]) and plain(sp['members'][b_])]
                 if free and r2.random() < 0.5:
                     a, b_ = r2.choice(free)
                     sp['rerun_edge'] = ['top', a, b_]      # and one more requirement added between the two runs
